@@ -8,7 +8,7 @@ TPLS = [
     Tpl("defframe", 'DEFFRAME {q} "{f}":\n\t{k}: "{d}"', q=("int", Q2), f=("str", ["rf", "ro"]), k=("str", ["DIRECTION", "HARDWARE-OBJECT"]), d=("str", ["tx", "rx"])),
     Tpl("defwaveform", "DEFWAVEFORM {w}(%{p}):\n\t1.0, 2.0", w=("str", ["wa", "wb"]), p=("str", ["x", "y"])),
     Tpl("defcal", "DEFCAL X {q}:\n\tY {b}", q=("int", Q2), b=("int", [0, 1, 2])),
-    Tpl("defcalmeasure", "DEFCAL MEASURE {q} addr:\n\tY {b}", q=("int", Q2), b=("int", [0, 1, 2])),
+    Tpl("defcalmeasure", "DEFCAL MEASURE {q} {t}:\n\tY {b}", q=("int", Q2), t=("str", ["addr", "dest"]), b=("int", [0, 1, 2])),      # the target name is part of the key (so are the modifiers of a gate calibration, but a second DEFCAL shape is outside this alphabet: one template per instruction variant)
     Tpl("defgate", "DEFGATE {g} AS PERMUTATION:\n\t{a}, {b}", g=("str", ["ga", "gb"]), a=("int", [0, 1]), b=("int", [0, 1])),
     Tpl("defcircuit", "DEFCIRCUIT {c}:\n\tPRAGMA {v}", c=("str", ["ca", "cb"]), v=("str", ["va", "vb"])),
     Tpl("pragma", 'PRAGMA {pn} {e} "{sig}"', pn=("str", ["EXTERN", "OTHER"]), e=("str", ["fa", "fb"]), sig=("str", ["(x : INTEGER)", "(y : REAL)"])),
